@@ -64,6 +64,18 @@ def run(ctx):
             # lower / upper case names are accepted too
             if any(x in f for x in ("%B", "%b", "%A", "%a", "%p")) and R.random() < 0.3:
                 cases.append({"s": R.choice([s.lower(), s.upper()]), "langs": ["en"], "settings": st, "fmts": [f], "today": today, "expect": expect_str(exp, period=period), "stratum": "english/case"})
+    # partial formats × all nine preference pairs (what the format cannot express is completed per the preferences)
+    for f in ["%Y", "%y", "%B %Y", "%m/%Y", "%Y %H:%M", "%d %B", "%H:%M"]:
+        for d in dates[:6] + dates[-2:]:
+            if ("%y" in f and not (1969 <= d.year <= 2068)) or ("%Y" in f and d.year < 1000):
+                continue
+            if not ("%Y" in f or "%y" in f) and (d.month, d.day) == (2, 29):
+                continue
+            for pd in PREFS:
+                for pm in PREFS:
+                    exp, period = expressible(d, f, pd, pm, today)
+                    cases.append({"s": d.strftime(f), "langs": ["en"], "settings": {"RELATIVE_BASE": base, "TIMEZONE": "UTC", "PREFER_DAY_OF_MONTH": pd, "PREFER_MONTH_OF_YEAR": pm},
+                                  "fmts": [f], "today": today, "expect": expect_str(exp, period=period), "stratum": "partial-all-prefs"})
     # the given format wins over a heuristic reading: an ambiguous numeric string read per the format, not per DATE_ORDER
     for _ in range(20 if tier == "quick" else 300):
         dd, mm, yy = R.randint(1, 12), R.randint(1, 12), R.randint(1970, 2060)
